@@ -499,6 +499,70 @@ def updOneProg (prog : List (Bool × AOp)) (s : SimState) (g : Game) (name : Nam
     | .ok a' => .ok { g with agents := setAgent name a' g.agents }
 
 
+/-! ### The three step pipelines (`PrimaiteGame.step`, `PrimaiteGymEnv.step`, `PrimaiteRayMARLEnv.step`) as the sequences of calls
+their sources are (Gen/Reward.lean `stepPipelines`, extracted on every run): WHEN the rewards are computed relative to the
+simulator's tick, on WHICH snapshot of the state, and WHAT the environment returns as the reward. -/
+
+/-- one top-level statement of a `step` method, as far as rewards are concerned -/
+inductive POp
+  /-- the RL agents' chosen actions are stored -/
+  | storeAction
+  /-- `pre_timestep()` -/
+  | preTimestep
+  /-- `apply_agent_actions()` -/
+  | applyActions
+  /-- `advance_timestep()`: the simulator's tick -/
+  | advance
+  /-- `x = get_sim_state()`: a snapshot (`describe_state()`) of the simulation as it is now -/
+  | getState (x : String)
+  /-- `update_agents(x)`: every agent's reward is computed on snapshot `x` -/
+  | updateAgents (x : String)
+  /-- `for agent in self.agents.values(): agent.update_observation(state=x)` (observations only) -/
+  | updateObservations (x : String)
+  /-- the value the method returns as reward(s) is read now: `current_reward` (`false`) or `total_reward` (`true`) -/
+  | readReward (total : Bool)
+  /-- a statement that touches neither the simulation nor the rewards (observations, truncation, info, logging) -/
+  | other
+deriving DecidableEq, Repr
+
+/-- what matters of a run of a pipeline: how many ticks happened, which snapshot each variable holds (tick count when taken), on
+which snapshots `update_agents` ran (in order), and when the returned reward was read (kind, number of `update_agents` done) -/
+structure PSt where
+  ticks : Nat := 0
+  vars : List (String × Nat) := []
+  updates : List Nat := []
+  reads : List (Bool × Nat) := []
+deriving DecidableEq, Repr
+
+/-- run a pipeline; `(true, op)` = `op` stands under `if self.step_counter == 0:`; `none` = an unbound snapshot variable -/
+def runPipe (first : Bool) : List (Bool × POp) → PSt → Option PSt
+  | [], st => some st
+  | (guarded, op) :: rest, st =>
+    if guarded && !first then runPipe first rest st
+    else
+      match op with
+      | .advance => runPipe first rest { st with ticks := st.ticks + 1 }
+      | .getState x => runPipe first rest { st with vars := (x, st.ticks) :: st.vars }
+      | .updateAgents x =>
+        match st.vars.lookup x with
+        | some v => runPipe first rest { st with updates := st.updates ++ [v] }
+        | none => none
+      | .updateObservations x =>
+        match st.vars.lookup x with
+        | some _ => runPipe first rest st
+        | none => none
+      | .readReward t => runPipe first rest { st with reads := st.reads ++ [(t, st.updates.length)] }
+      | _ => runPipe first rest st
+
+/-- the property's "evaluated on the post-step state … reward returned by env.step": in the first step of an episode and in every
+later one, exactly one tick; `update_agents` runs exactly once, on a snapshot taken AFTER that tick; and (environments) the returned
+reward is `current_reward`, read once, AFTER `update_agents` -/
+def pipeOK (returnsReward : Bool) (p : List (Bool × POp)) : Bool :=
+  [true, false].all fun first =>
+    match runPipe first p {} with
+    | some st => st.ticks == 1 && st.updates == [1] && (st.reads == if returnsReward then [(false, 1)] else [])
+    | none => false
+
 /-- one `PrimaiteGame.step` / `PrimaiteGymEnv.step`, reward-relevant part, exceptions included -/
 def gameStepE (g : Game) (items : Name → Item) (s : SimState) : Except Err Game :=
   updateAgentsE s (advance (act items g))
